@@ -3,6 +3,8 @@ import gen
 import progcases
 import common
 
+TWINS = ['pred']      # harness/twins.py: which part of a twin text carries the difference
+
 N = {"quick": 600, "thorough": 15000}
 
 PRELUDES = ['def e { return "a" weighted 1 } /* notes', 'def e { return "a" weighted }', 'def e { @ }', '/*', 'def e { salt: "unterminated }',
